@@ -409,6 +409,10 @@ def run_check(chk, pid, theorems, scripts, searched):
             oc = tuple(e.outcome for e in wk.exchanges)
             distinct.add((meta["fault"], meta["group"], meta["reload"], min(meta["pos"], 3) if meta["pos"] < meta["of"] else "last", oc))
             labels[meta["fault"]] = labels.get(meta["fault"], 0) + 1
+        elif meta.get("kind") == "session":
+            distinct.add((meta["name"], meta["ver"], str(sorted((k, str(v)) for k, v in meta.items() if k in ("expect", "fails", "pre_wait", "sends"))),
+                          tuple(e.outcome for e in wk.exchanges), tuple(q[1][0] for q in wk.queries)))
+            labels[meta["name"]] = labels.get(meta["name"], 0) + 1
         elif meta.get("kind") == "conversation":
             for lab in meta["exchanges"]:
                 labels[lab] = labels.get(lab, 0) + 1
